@@ -24,6 +24,9 @@ def quantizeRect (b : Box) (factor : Nat) : Box :=
   ⟨((b.xMin / f).floor : Q) * f, ((b.yMin / f).floor : Q) * f,
    (qceil (b.xMax / f) : Q) * f, (qceil (b.yMax / f) : Q) * f⟩
 
+/-- the default quantisation step when `clipbox_quantization` is unset (write_font.py `_colr_ufo`): 2% of the UPEM, rounded -/
+def defaultClipQuant (upem : Q) : Int := roundHalfEven (upem * (1 / 50))
+
 def listMin : List Q → Option Q
   | [] => none
   | x :: xs => some (xs.foldl qmin x)
